@@ -69,6 +69,34 @@ def gen_model(rng: Any, scanned_service: int | None) -> dict[str, Any]:
     return {str(s): {str(k): v for k, v in sv.items()} for s, sv in model.items()}
 
 
+def parse_skip(elems: list[str]) -> dict[int, list[int] | None]:
+    """Independent reading of the --skip grammar: 'S' = whole session (wins over everything), 'S[-S2]:a,b-c'."""
+
+    def ints(expr: str) -> list[int]:
+        out: set[int] = set()
+        for part in expr.split(","):
+            if "-" in part:
+                lo, hi = part.split("-")
+                out.update(range(int(lo, 0), int(hi, 0) + 1))
+            else:
+                out.add(int(part, 0))
+        return sorted(out)
+
+    whole: set[int] = set()
+    partial: dict[int, set[int]] = {}
+    for el in elems:
+        if ":" in el:
+            outer, inner = el.split(":")
+            for s in ints(outer):
+                partial.setdefault(s, set()).update(ints(inner))
+        else:
+            whole.update(ints(el))
+    res: dict[int, list[int] | None] = {s: sorted(v) for s, v in partial.items()}
+    for s in whole:
+        res[s] = None
+    return res
+
+
 class C10(Check):
     prop = "C10"
     level = "exploration"
@@ -121,7 +149,37 @@ class C10(Check):
             elif plan["scanner"] == "services":
                 skip[str(s)] = sorted(rng.sample(range(0, 0x100), rng.choice([1, 5, 40])))
         plan["skip"] = skip
+        plan["skip_expr"] = None
+        if plan["sessions"] and rng.random() < 0.35:
+            # range-expression form: "S" (whole session), "S:ids", "S1-S2:ids", several elements, any order
+            elems = []
+            cand_s = sorted(set(plan["sessions"]))
+            for _ in range(rng.choice([1, 2, 3])):
+                s0 = rng.choice(cand_s)
+                form = rng.random()
+                if form < 0.3:
+                    elems.append(f"{s0:#x}")
+                else:
+                    outer = f"{s0:#x}" if form < 0.7 else f"{max(1, s0 - 1):#x}-{s0 + 1:#x}"
+                    if plan["scanner"] == "services":
+                        a = rng.randrange(0, 0xF0)
+                        inner = rng.choice([f"{a:#x}", f"{a:#x}-{a + rng.randrange(1, 12):#x}", f"{a:#x},{(a + 40) % 256:#x}", f"0x10-0x2f,{a}"])
+                    else:
+                        inner = "0x0-0x3"
+                    elems.append(f"{outer}:{inner}")
+            plan["skip_expr"] = elems
         plan["check_session"] = rng.random() < 0.25
+        if plan["check_session"] and plan["scanner"] == "services" and rng.random() < 0.6:
+            # an ECU that falls back to the default session when probed (ECUReset sub-function 0x00 offered):
+            # exactly what --check-session is for; the session can be read (0x22 offered) and re-entered from the default session
+            sessions_ = sorted(int(x) for x in plan["model"])
+            for s_ in sessions_:
+                sv = plan["model"][str(s_)]
+                sv["17"] = sorted(set(sv.get("17") or []) | {0})
+                sv["34"] = None
+                if s_ == 1:
+                    sv["16"] = sorted(set(sv["16"]) | set(sessions_))
+            plan["drops_out"] = True
         plan["reset"] = rng.random() < 0.2
         plan["scan_response_ids"] = rng.random() < 0.25
         if plan["scanner"] == "identifiers":
@@ -188,7 +246,11 @@ class C10(Check):
         model = {int(s): {int(k): v for k, v in sv.items()} for s, sv in plan["model"].items()}
         ecu = self._mk_ecu(plan)
         skip = {int(k): v for k, v in plan["skip"].items()}
-        common: dict[str, Any] = dict(target="tcp-lines://ecu:1", dumpcap=False, sessions=plan["sessions"], skip=skip,
+        skip_arg: Any = skip
+        if plan.get("skip_expr"):
+            skip = parse_skip(plan["skip_expr"])
+            skip_arg = list(plan["skip_expr"])
+        common: dict[str, Any] = dict(target="tcp-lines://ecu:1", dumpcap=False, sessions=plan["sessions"], skip=skip_arg,
                                       tester_present=plan["tp"] is not None, tester_present_interval=plan["tp"] or 0.5, timeout=1.0)
         if plan["scanner"] == "services":
             cfg: Any = ServicesScannerConfig(check_session=plan["check_session"], reset=1 if plan["reset"] else None, scan_response_ids=plan["scan_response_ids"], **common)
@@ -228,6 +290,10 @@ class C10(Check):
         res["shape"] = f"{plan['scanner']}|{plan.get('service')}|n{len(model)}|sess{sess_list}|skip{len(skip)}|{'C' if plan['check_session'] else ''}{'R' if plan['reset'] else ''}{'I' if plan['scan_response_ids'] else ''}|{res['note'].get('summary', '')}"
         if plan["check_session"]:
             bump(res["faults"], "check_session")
+        if plan.get("drops_out"):
+            bump(res["faults"], "ecu_drops_out_of_session_on_probe")
+        if plan.get("skip_expr"):
+            bump(res["faults"], "skip_as_range_expression")
         if plan["tp"] is not None:
             bump(res["faults"], "tester_present_worker")
 
@@ -399,6 +465,8 @@ class C10(Check):
             total_pos += positives
             # skipped identifiers never hit the wire in that session
             for did in skipped:
+                if not start <= did <= end:
+                    continue
                 for sf in subs:
                     pdu = (bytes([svc, did]) if svc == 0x27 else bytes([svc, sf, did >> 8, did & 0xFF]) if svc == 0x31 else bytes([svc, did >> 8, did & 0xFF])) + payload
                     if any(p == pdu and s == real for s, p, _ in log) and not (svc == 0x22 and did == 0xF186):
